@@ -8,11 +8,13 @@ import (
 	"encoding/json"
 	"fmt"
 	"reflect"
+	"time"
 
 	stk "github.com/JesseCoretta/go-stackage"
 )
 
 type TransferInput struct {
+	SrcMutex bool  `json:"src_mutex,omitempty"`
 	SrcFifo bool   `json:"src_fifo"`
 	Src     []int  `json:"src"`     // element codes as in hist.go
 	Form    string `json:"form"`    // native alias ptr ronly zero int nil
@@ -50,6 +52,9 @@ func runTransfer(raw json.RawMessage) (res *Result, err error) {
 		sv = append(sv, h.val(c))
 	}
 	src.Push(sv...)
+	if in.SrcMutex {
+		src.SetMutex()
+	}
 	var dst stk.Stack
 	if in.DstCap > 0 {
 		dst = stk.And(in.DstCap)
@@ -91,6 +96,7 @@ func runTransfer(raw json.RawMessage) (res *Result, err error) {
 		dest, dstOK = nil, false
 	}
 	before := cfgSnapshot(dst)
+	srcBefore := stk.VerifDump(src)["cfg"]
 	ok, panicked := false, false
 	func() {
 		defer func() {
@@ -102,6 +108,25 @@ func runTransfer(raw json.RawMessage) (res *Result, err error) {
 	}()
 	after := cfgSnapshot(dst)
 	same := reflect.DeepEqual(before, after)
+	// the source's configuration, lock bookkeeping included, must be as it was,
+	// and the source must still accept a mutator (watchdog: a lock left held blocks)
+	if !reflect.DeepEqual(srcBefore, stk.VerifDump(src)["cfg"]) || stk.VerifMutexHeld(src) {
+		same = false
+	}
+	if !panicked {
+		done := make(chan bool, 1)
+		go func() {
+			defer func() { recover(); done <- true }()
+			src.Reverse() // takes the source's lock; twice = content as before
+			src.Reverse()
+		}()
+		select {
+		case <-done:
+		case <-time.After(2 * time.Second):
+			same = false
+			panicked = true // reported as "did not return normally"
+		}
+	}
 	read := func(s stk.Stack) (codes []string, js []any) {
 		d := stk.VerifDump(s)
 		slots, _ := d["slots"].([]any)
@@ -171,7 +196,7 @@ func genTransfer(ctx *Ctx, emit func(any, string)) {
 							if ctx.Quick() && fifo == 1 && form != "native" {
 								continue
 							}
-							in := TransferInput{SrcFifo: fifo == 1, Form: form, DstCap: cp, DstPol: -1}
+							in := TransferInput{SrcFifo: fifo == 1, SrcMutex: (sl+dl+cp)%2 == 1, Form: form, DstCap: cp, DstPol: -1}
 							for i := 0; i < sl; i++ {
 								v := 10 + i
 								if withNil == 1 && i == 1 {
@@ -192,7 +217,7 @@ func genTransfer(ctx *Ctx, emit func(any, string)) {
 	n := ctx.N(300, 8000)
 	for i := 0; i < n; i++ {
 		r := ctx.Rng.Fork()
-		in := TransferInput{SrcFifo: r.Bool(), Form: forms[r.Intn(4)], DstPol: -1}
+		in := TransferInput{SrcFifo: r.Bool(), SrcMutex: r.Pct(40), Form: forms[r.Intn(4)], DstPol: -1}
 		if r.Pct(30) {
 			in.Form = forms[r.Intn(len(forms))]
 		}
